@@ -1,7 +1,8 @@
 (* C18 - The JSON document is the configuration, no more and no less.
-   Statements only; proofs live in Proofs/TreeProofs.v, Proofs/TreeBuildProofs.v, Proofs/TreeExamples.v. *)
+   Statements only; proofs live in Proofs/TreeProofs.v, Proofs/TreeBuildProofs.v, Proofs/TreeFlattenProofs.v,
+   Proofs/TreeExamples.v. *)
 From Coq Require Import List NArith Bool Permutation Sorted.
-From OC Require Import Base.Bytes Model.Tree Model.TreeSpec Proofs.TreeProofs Proofs.TreeBuildProofs Proofs.TreeExamples.
+From OC Require Import Base.Bytes Model.Tree Model.TreeSpec Proofs.TreeProofs Proofs.TreeBuildProofs Proofs.TreeFlattenProofs Proofs.TreeExamples.
 Import ListNotations.
 
 (* Pruning keeps exactly (as a multiset) the path/values that have no tombstone strictly above them at a path
@@ -40,6 +41,53 @@ Theorem C18_build_render : forall rfc pvs,
   build_tree rfc pvs = Ok (render rfc (trie_of (live_paths pvs))).
 Proof. exact build_tree_render. Qed.
 Print Assumptions C18_build_render.
+
+(* Flattening the document gives back exactly the live valued leaves, plus the key leaves of the list entries
+   the live paths go through (an explicit key leaf replaces the injected one).  wf_set: the live paths, in
+   the order BuildTree processes them, are the depth-first enumeration of a well-formed trie - entries
+   contiguous, canonical key order, one key-name list per list, no leaf above a leaf, explicit key leaves
+   agreeing with the path.  That every sorted canonical set has contiguous entries is not proved here; the
+   driver evaluates wf_set (extracted) on every generated well-formed set instead. *)
+Theorem C18_flatten_build : forall rfc pvs,
+  wf_set rfc pvs = true ->
+  exists t, build_tree rfc pvs = Ok t /\
+            Permutation (flatten (schema_of (live_paths pvs)) [] t)
+                        (explicit_leaves rfc (live_paths pvs) ++ key_leaves rfc (trie_of (live_paths pvs)) []).
+Proof. exact flatten_build. Qed.
+Print Assumptions C18_flatten_build.
+
+(* no more: every key leaf read back is implied by a key of a list entry on some live path *)
+Theorem C18_key_leaves_implied : forall rfc pvs x,
+  wf_set rfc pvs = true ->
+  In x (key_leaves rfc (trie_of (live_paths pvs)) []) ->
+  exists p, In p (live_paths pvs) /\ In x (implied_of [] (fst p)).
+Proof. exact key_leaves_implied. Qed.
+Print Assumptions C18_key_leaves_implied.
+
+(* the hypotheses are satisfiable by a non-trivial set (nested and multi-key lists, numeric keys with an explicit
+   numeric key leaf, prefix-sharing siblings, tombstones) *)
+Theorem C18_wf_example : wf_set true wf_example = true /\ wf_set false wf_example = true.
+Proof. exact wf_example_ok. Qed.
+Print Assumptions C18_wf_example.
+
+(* one key set, one entry: the list called n of a well-formed node holds exactly one entry per keyed child n,
+   in order (an entry is never split) ... *)
+Theorem C18_entries_one_per_key_set : forall rfc ks sp K0 cs n,
+  wf_trie rfc ks sp K0 (TNode cs) = true -> ~ In n (map fst K0) ->
+  (forall et, In et cs -> child_name et = n -> keyed_child et) ->
+  arr_of n (render_cs rfc (TNode cs) (keymap_node K0)) = entries_of rfc n cs.
+Proof. exact render_entries. Qed.
+Print Assumptions C18_entries_one_per_key_set.
+
+(* ... and entries of different key sets answer to their own keys only (entries are never merged) *)
+Theorem C18_entries_distinct : forall rfc ks sp K0 cs ea ca eb cb n Ka Kb,
+  wf_trie rfc ks sp K0 (TNode cs) = true ->
+  In (ea, TNode ca) cs -> In (eb, TNode cb) cs ->
+  classify ea = EKeyed n Ka -> classify eb = EKeyed n Kb -> kv_eqb Ka Kb = false ->
+  full_match Ka (render_cs rfc (TNode ca) (keymap_node Ka)) /\
+  some_differs Kb (render_cs rfc (TNode ca) (keymap_node Ka)).
+Proof. exact entries_distinct. Qed.
+Print Assumptions C18_entries_distinct.
 
 (* outside the domain: keys written in different orders split an entry (environment only: plugin output) *)
 Theorem C18_noncanonical_refuted :
